@@ -64,10 +64,13 @@ let snapshot (d : dstate) =
   let cs = List.sort (fun a b -> compare (int_of_n a.c_peer) (int_of_n b.c_peer)) d.d_conns in
   let b = Buffer.create 256 in
   List.iter (fun c ->
-    Buffer.add_string b (Printf.sprintf "S%d[ids=%d,%d le=%d%d rs=%d%d ih=%d ip=%d pend=0 mask=%d rd=%d wr=0 ds=%c lp=%d] "
-      (int_of_n c.c_peer) (int_of_n c.c_id_pex) (int_of_n c.c_id_meta) (b01 c.c_le_pex) (b01 c.c_le_meta)
-      (b01 c.c_rs_pex) (b01 c.c_rs_meta) (b01 c.c_init_hs) (b01 c.c_init_pex) (int_of_n (mask_num c.c_mask))
-      (b01 c.c_in_read) (if c.c_ds_ext then 'E' else 'I') (int_of_n c.c_listen))) cs;
+    let x = c.c_x and i = c.c_io in
+    Buffer.add_string b (Printf.sprintf "S%d[ids=%d,%d le=%d%d rs=%d%d ih=%d ip=%d pend=%d mask=%d rd=%d wr=%d ds=%c up=%c buf=%d lp=%d] "
+      (int_of_n c.c_peer) (int_of_n x.x_id_pex) (int_of_n x.x_id_meta) (b01 x.x_le_pex) (b01 x.x_le_meta)
+      (b01 x.x_rs_pex) (b01 x.x_rs_meta) (b01 x.x_init_hs) (b01 x.x_init_pex)
+      (match i.i_pend with Some _ -> 1 | None -> 0) (int_of_n (mask_num i.i_mask))
+      (b01 i.i_in_read) (b01 i.i_in_write) (if i.i_ds_ext then 'E' else 'I')
+      (match i.i_up with UIdle -> 'I' | UMsg _ -> 'B') (int_of_n (bytes_of i.i_buf)) (int_of_n x.x_listen))) cs;
   Buffer.add_string b (Printf.sprintf "D[sp=%d pa=%d list=%s]" (int_of_n d.d_size_pex) (b01 d.d_pex_active) (entries_hex d.d_list));
   Buffer.contents b
 
@@ -81,25 +84,47 @@ let parse_hs (s : string) : hs =
     end) (String.split_on_char ',' s);
   { hs_pex = !x; hs_meta = !m; hs_port = !p; hs_msize = !sz }
 
-let parse_item (s : string) : msg =
+let hs_text (s : string) : string =
+  let x = ref "" and m = ref "" and p = ref "" and sz = ref "" in
+  List.iter (fun f ->
+    if String.length f >= 2 then begin
+      let v = String.sub f 1 (String.length f - 1) in
+      match f.[0] with
+      | 'x' -> x := v | 'm' -> m := v | 'p' -> p := v | 's' -> sz := v | _ -> ()
+    end) (String.split_on_char ',' s);
+  let fld k v = if v = "" then "" else Printf.sprintf "%d:%si%se" (String.length k) k v in
+  "d1:md" ^ fld "ut_metadata" !m ^ fld "ut_pex" !x ^ "e" ^ fld "metadata_size" !sz ^ fld "p" !p ^ "e"
+
+let parse_item (s : string) : msg * n =
   if s = "" then failwith "item" else
   match s.[0] with
-  | 'H' -> MHandshake (parse_hs (String.sub s 1 (String.length s - 1)))
+  | 'H' ->
+      let body = String.sub s 1 (String.length s - 1) in
+      (MHandshake (parse_hs body), n_of_int (6 + String.length (hs_text body)))
   | 'M' ->
       (match String.split_on_char '.' (String.sub s 1 (String.length s - 1)) with
-       | [e; t; p] -> MExt (n_of_string e, z_of_string t, z_of_string p)
+       | [e; t; p] ->
+           let text = "d8:msg_typei" ^ t ^ "e5:piecei" ^ p ^ "ee" in
+           (MExt (n_of_string e, z_of_string t, z_of_string p), n_of_int (6 + String.length text))
        | _ -> failwith "item")
   | _ -> failwith "item"
 
 let parse_op (s : string) : op =
   if s = "t" then Tick else begin
     let i = n_of_int (Char.code s.[1] - 48) in
+    let arg () = String.sub s 3 (String.length s - 3) in
     match s.[0] with
     | 'c' -> Connect i
     | 'd' -> Close i
-    | 'b' -> Recv (i, List.map parse_item (String.split_on_char '/' (String.sub s 3 (String.length s - 3))))
+    | 'w' -> SetBlocked (i, arg () = "0")
+    | 'b' -> Recv (i, List.map parse_item (List.filter (fun x -> x <> "") (String.split_on_char '/' (arg ()))))
     | _ -> failwith "op"
   end
+
+let fx_of_env () =
+  match Sys.getenv_opt "C20_FX" with
+  | Some s when String.length s = 4 -> { fx_up_nothrow = s.[0] = '1'; fx_pex_false = s.[1] = '1'; fx_drain = s.[2] = '1'; fx_port = s.[3] = '1' }
+  | _ -> current_fixes
 
 let run_case header ops =
   let kv = List.filter_map (fun t -> match String.index_opt t '=' with
@@ -108,12 +133,14 @@ let run_case header ops =
   let padn = int_of_string (get "pad") and seed = int_of_string (get "seed") in
   let pad = List.init padn (fun g -> byte_tab.(content_byte seed g)) in
   let meta = bytes_of_hex (get "pre") @ pad @ bytes_of_hex (get "suf") in
-  let d = ref (start (get "priv" = "1") meta (n_of_string (get "minp"))) in
+  let fx = fx_of_env () in
+  let d = ref (start fx (get "priv" = "1") meta (n_of_string (get "minp"))) in
   let parts = ref [] in
   (try
     List.iter (fun tok ->
-      match step !d (parse_op tok) with
+      match step fx !d (parse_op tok) with
       | SInternalError -> parts := "ERR:internal" :: !parts; raise Exit
+      | SUnmodelled -> parts := "UNMODELLED" :: !parts; raise Exit
       | SOk (d', outs) ->
           d := d';
           let outs = List.stable_sort (fun a b -> compare (peer_of a) (peer_of b)) outs in
@@ -130,7 +157,7 @@ let () = each_line (fun line ->
   match split_ws line with
   | ["SLICE"; h; p] ->
       let m = bytes_of_hex h in
-      show_reply (send_metadata_piece false m (n_of_string p)) ^ " | " ^ show_reply (send_metadata_piece_repaired false m (n_of_string p))
+      show_reply (send_metadata_piece false m (n_of_string p)) ^ " | " ^ show_reply (send_metadata_piece_old false m (n_of_string p))
   | _ ->
     (match String.index_opt line '|' with
      | None -> "BADCASE"
